@@ -384,7 +384,7 @@ C17_BindingProven(x) ==
           /\ x.ev.sigmode = "ok" /\ x.ev.amount + 900 >= 0
           /\ (Has(x.pre.versions, "doc", b.did) => Has(x.pre.bindings, "acc", x.ev.creator) /\ Get(x.pre.bindings, "acc", x.ev.creator).did = b.did)
     /\ \A b \in GoneBindings(x) :
-          /\ Kind(x) = "DidUpdate" /\ Ok(x) /\ b.did = x.ev.did /\ InSeq(b.acc, x.ev.tx)
+          /\ Kind(x) = "DidUpdate" /\ Ok(x) /\ b.did = x.ev.did
           /\ Has(x.pre.bindings, "acc", x.ev.creator) /\ Get(x.pre.bindings, "acc", x.ev.creator).did = b.did
 C17_PayAddrChange(x, cfg) ==
     /\ \A i \in 1..Len(x.pre.pay) : LET p == x.pre.pay[i] IN
